@@ -111,7 +111,7 @@ def impl(op, a):
 
 
 # ------------------------------------------------------------------ independent transcription
-def nak_layout(ids, flags, start, end, flat, direction=1):
+def nak_layout(ids, flags, start, end, flat, direction=1, meta=0):
     """CCSDS 727.0-B-5 table 5-10, arithmetic only (the Coq Spec.nak_layout is evaluated too, op 1390)."""
     mode, large, crc, _, seg = flags
     w = 8 if large else 4
@@ -119,7 +119,7 @@ def nak_layout(ids, flags, start, end, flat, direction=1):
     for v in flat:
         body += list(v.to_bytes(w, "big"))
     dlen = len(body) + (2 if crc else 0)
-    pre = h5.layout(ids, [mode, large, crc, direction, seg], [0, 0, dlen]) + body
+    pre = h5.layout(ids, [mode, large, crc, direction, seg], [0, meta, dlen]) + body
     if crc:
         c = h5.crc16_bitwise(pre)
         pre = pre + [c >> 8, c & 0xFF]
@@ -384,11 +384,10 @@ def _check_decoded(b, ires, what):
     hl = 4 + 2 * ids[1] + ids[5]
     pl = hl + b[1] * 256 + b[2]
     try:
-        exp = nak_layout(ids, flags, start, end, flat, direction=flags[3])   # the decoder keeps the direction bit
+        exp = nak_layout(ids, flags, start, end, flat, direction=flags[3], meta=hd[1])   # the decoder keeps direction and metadata-flag bits
     except (OverflowError, ValueError):
         exp = None
-    if lens != [hl, pl] or dt != [8, hl + 1, pl] or hd != [0, hd[1], pl - hl] or exp is None or \
-            [x if i != 3 else x & 0xF7 for i, x in enumerate(exp)] != [x if i != 3 else x & 0xF7 for i, x in enumerate(b[:pl])]:
+    if lens != [hl, pl] or dt != [8, hl + 1, pl] or hd != [0, hd[1], pl - hl] or exp != list(b[:pl]):
         return ("C06/NakPdu.unpack/%s" % what,
                 "octets %s (declared packet length %d, %d octets given) decoded to lengths %s %s, scope (%d, %d), segment requests %s, "
                 "which is the encoding of %s" % (list(b[:48]), pl, len(b), lens, dt, start, end, flat[:12], None if exp is None else exp[:48]))
